@@ -113,7 +113,7 @@ func init() {
 	Register(&Prop{
 		ID: "C11", NoShrink: true,
 		Rule: "histories of 1..3 connections x 1..4 requests served by one Server (shared ctx pool): structured requests (method, path, query args, custom headers, cookies, form/plain bodies), " +
-			"interleaved with malformed heads, rejected expectations, TimeoutError, hijacks, handler-set close, streamed bodies; the handler snapshots method/URI/headers/cookies/body/query+post args/user values/default response " +
+			"interleaved with malformed heads, rejected expectations (with and without a declared body), TimeoutError, hijacks, handler-set close, streamed bodies; the handler snapshots method/URI/headers/cookies/body/query+post args/user values/default response " +
 			"and then dirties user values, response and request; non-trivial = at least two dispatches in the history; distinct = distinct input",
 		Parallel: true,
 		Build: func(kind string, a [][]byte) *Case {
@@ -160,58 +160,64 @@ func init() {
 			}
 			var expected []c11Obs
 			respNote := ""
+			expectOf := func(q c11Req) c11Obs {
+				e := c11Obs{method: q.method, uri: q.uri(), body: q.body, cookies: sortedKV(q.cookies), userValues: 0, respDefault: "200|\"\"|1|false"}
+				var qa [][2]string
+				for _, kv := range strings.Split(q.query, "&") {
+					if k, v, ok := strings.Cut(kv, "="); ok {
+						qa = append(qa, [2]string{k, v})
+					}
+				}
+				e.query = sortedKV(qa)
+				if q.form && !cfg.Stream {
+					var pa [][2]string
+					for _, kv := range strings.Split(q.body, "&") {
+						if k, v, ok := strings.Cut(kv, "="); ok {
+							pa = append(pa, [2]string{k, v})
+						}
+					}
+					e.post = sortedKV(pa)
+				}
+				e.hdrs = sortedKV(q.headers)
+				return e
+			}
 			for _, conn := range conns {
 				nDispBefore := len(obs)
-				nonDispatchResponses := 0
 				var stream []byte
 				var perReq [][]byte
-				stopAt := -1
 				for _, q := range conn {
 					stream = append(stream, q.wire()...)
 					perReq = append(perReq, q.wire())
-				}
-				for i, q := range conn {
-					if stopAt < 0 {
-						rejected := q.expect && (cfg.Continue == "reject" || cfg.Continue == "expect417")
-						if q.malformed {
-							stopAt = i // nothing dispatched for i and later
-							nonDispatchResponses = 1 // the 400
-							break
-						}
-						if rejected {
-							nonDispatchResponses = 1 // the 417
-						}
-						if !rejected {
-							e := c11Obs{method: q.method, uri: q.uri(), body: q.body, cookies: sortedKV(q.cookies), userValues: 0, respDefault: "200|\"\"|1|false"}
-							var qa [][2]string
-							for _, kv := range strings.Split(q.query, "&") {
-								if k, v, ok := strings.Cut(kv, "="); ok {
-									qa = append(qa, [2]string{k, v})
-								}
-							}
-							e.query = sortedKV(qa)
-							if q.form && !cfg.Stream {
-								var pa [][2]string
-								for _, kv := range strings.Split(q.body, "&") {
-									if k, v, ok := strings.Cut(kv, "="); ok {
-										pa = append(pa, [2]string{k, v})
-									}
-								}
-								e.post = sortedKV(pa)
-							}
-							e.hdrs = sortedKV(q.headers)
-							expected = append(expected, e)
-						}
-						if rejected || q.special == "hj" || q.special == "close" || (cfg.MaxReqs > 0 && i+1 >= cfg.MaxReqs) {
-							break
-						}
-					}
 				}
 				// each request arrives in its own read, so nothing of a later request sits in the server's buffer early
 				res := cs.run(perReq)
 				codes, perr := wireResponses(res.Trace.Out)
 				if os.Getenv("C11_DEBUG") != "" {
 					fmt.Fprintf(os.Stderr, "wire=%q codes=%v perr=%v events=%+v err=%v\n", res.Trace.Out, codes, perr, res.Trace.Events, res.ServeErr)
+				}
+				// What the handler must have seen on this connection.  A server may close after rejecting an expectation
+				// (fasthttp does) or keep the connection; the wire tells which: if more final responses follow the 417,
+				// the connection was kept and every later request must be dispatched as itself.
+				nonDispatchResponses := 0
+				responsesSoFar := 0
+				for i, q := range conn {
+					rejected := q.expect && (cfg.Continue == "reject" || cfg.Continue == "expect417")
+					if q.malformed {
+						nonDispatchResponses++ // the 400; nothing is dispatched for this and later requests
+						break
+					}
+					responsesSoFar++
+					if rejected {
+						nonDispatchResponses++ // the 417
+						if perr == nil && len(codes) > responsesSoFar {
+							continue // the server kept the connection
+						}
+						break
+					}
+					expected = append(expected, expectOf(q))
+					if q.special == "hj" || q.special == "close" || (cfg.MaxReqs > 0 && i+1 >= cfg.MaxReqs) {
+						break
+					}
 				}
 				hijacked := false
 				for _, q := range conn {
@@ -292,7 +298,9 @@ func init() {
 						}
 						body, form := "", "0"
 						if method == "POST" || method == "PUT" {
-							if r.Bool() {
+							if r.Chance(15) {
+								// empty body: Content-Length: 0
+							} else if r.Bool() {
 								body, form = fmt.Sprintf("p1=%d&p2=x", r.Intn(100)), "1"
 							} else {
 								body = fmt.Sprintf("plain-%d", r.Intn(1000))
@@ -317,6 +325,9 @@ func init() {
 						}
 						if strings.HasPrefix(cfg, "cont=") && body != "" && r.Chance(50) {
 							expect = "1"
+						}
+						if strings.HasPrefix(cfg, "cont=") && body == "" && r.Chance(20) {
+							expect = "1" // an expectation on a request that declares an empty body (Content-Length: 0 / none)
 						}
 						f := []string{method, fmt.Sprintf("/p%d", r.Intn(5)), strings.Join(qs, "&"), strings.Join(hs, "\x1e"), strings.Join(cks, "\x1e"), body, form, malformed, expect, special}
 						args = append(args, B(strings.Join(f, "\x1f")))
